@@ -103,3 +103,32 @@ Definition lookup_binding (b : list (N * N * N)) (p n : N) : option N :=
 Definition no_shadow_b (bindings files : list (N * N * N)) : bool :=
   forallb (fun f => match lookup_binding bindings (fst (fst f)) (snd (fst f)) with
                     | Some t => N.eqb t (snd f) | None => true end) files.
+
+(* ---- module-local discipline: an attribute use  X.Y  of a submodule Y in module m is COVERED when m
+   itself imports Y explicitly, or importing X alone already binds Y (measured in the -S interpreter:
+   the events of the external X), or Y is loaded at interpreter start-up. ------------------------- *)
+Definition imports_of (evs : list event) : list N :=
+  flat_map (fun e => match e with EImport k => [k] | _ => [] end) evs.
+
+Section Local.
+  Variable events : N -> list event.
+  Variable chain : N -> list N.
+  Variable startup : list N.
+
+  Definition parent_of (y : N) : option N :=
+    match rev (chain y) with _ :: x :: _ => Some x | _ => None end.
+
+  Definition use_covered (m y : N) : bool :=
+    memN y (imports_of (events m))
+    || match parent_of y with Some x => memN y (imports_of (events x)) | None => false end
+    || memN y startup.
+
+  (* the same for uses inside function bodies (run time), where imports made inside the module's
+     functions count as the module's own imports *)
+  Definition fn_uses_covered_b (fn_uses fn_imports : list (N * N)) : bool :=
+    forallb (fun u => use_covered (fst u) (snd u)
+                      || existsb (fun p => N.eqb (fst p) (fst u) && N.eqb (snd p) (snd u)) fn_imports) fn_uses.
+
+  Definition locally_covered_b (mods : list N) : bool :=
+    forallb (fun m => forallb (fun e => match e with EUse y => use_covered m y | _ => true end) (events m)) mods.
+End Local.
